@@ -3,6 +3,7 @@ import json
 import multiprocessing
 import os
 import random
+import re
 import struct
 import sys
 
@@ -256,6 +257,68 @@ def _work(args):
     return recs, notes
 
 
+def tlc_rows(run, classes, quick):
+    """Leg A + the row source of leg B: MC_Schema enumerates, for every (class, version), every restriction of a
+    maximal consistent value to a subset of its optional fields, checks the decodability lemma on the model and
+    prints the value; returns [(cls, ver, label, val)]."""
+    rng = random.Random(common.SEED + 7)
+    g = G.Gen(rng)
+    base = []
+    for c in classes:
+        if c == "Attribute":
+            continue
+        for v in G.versions_of(c):
+            fs = G.live_fields(c, v)
+            opt = {f["n"] for f in fs if f["c"] in "?*"}
+            try:
+                val = g.obj(c, v, present=opt)
+                obj = B.construct(c, val)
+            except G.NoCase:
+                continue
+            except Exception:
+                continue            # reported as unconstructible by the value runs
+            base.append({"cls": c, "ver": v, "tag": obj.tag.value, "val": val})
+    if not base:
+        return []
+    path = os.path.join(common.scratch(), "c01_base.json")
+    with open(path, "w") as f:
+        json.dump(base, f)
+    cfg = tlc.write_cfg("MC_Schema.cfg", "SPECIFICATION Spec\nCONSTANT MaxOpt = %d\nCHECK_DEADLOCK FALSE\n" % (6 if quick else 11))
+    res = tlc.run("MC_Schema", cfg, env={"TRACE_FILE": path}, timeout=3600, heap="12g")
+    run.add_tlc(res, "MC_Schema: decodability lemma over presence combinations of %d (class, version) pairs" % len(base))
+    rows = res.tag("R")
+    bad = [r for r in rows if not r["lemma"]]
+    if bad:
+        raise common.MachineryFailure("MC_Schema: the schema is not sequentially decodable for %s" % json.dumps(bad[0])[:1500])
+    if 2 * len(rows) != res.distinct:
+        raise common.MachineryFailure("MC_Schema printed %d rows for %d states" % (len(rows), res.distinct))
+    run.extra["schema_lemma_rows"] = len(rows)
+    out = []
+    for i, r in enumerate(rows):
+        out.append((r["cls"], r["ver"], "tlc:%d" % i, r["val"]))
+    return out
+
+
+def _work_rows(rows):
+    recs, notes = [], []
+    g = G.Gen(random.Random(1))
+    for cls, ver, label, val in rows:
+        h = G.HOOKS.get(cls)
+        if h:
+            val = h(g, val, ver, 0)
+        rid = "%s/%d/%s" % (cls, ver, label)
+        try:
+            rec, note = run_value(rid, cls, ver, val)
+        except Exception as e:
+            notes.append((cls, ver, "harness", err(e)))
+            continue
+        if note:
+            notes.append((cls, ver, note[0], note[1]))
+        else:
+            recs.append(rec)
+    return recs, notes
+
+
 def validate(recs, name):
     path = os.path.join(common.scratch(), "c01_%s.json" % name)
     with open(path, "w") as f:
@@ -292,8 +355,10 @@ def check(run, tier):
         for i, v in enumerate(vs):
             full = (not quick) or v in (vs[0], vs[-1]) or (len(vs) > 2 and v == vs[len(vs) // 2])
             tasks.append((c, v, common.SEED, (6 if quick else 40) if full else 3, full, (2 if quick else 8)))
+    rows = tlc_rows(run, classes, quick)
     with multiprocessing.Pool(common.NCPU) as pool:
         outs = pool.map(_work, tasks, chunksize=1)
+        outs += pool.map(_work_rows, [rows[i:i + 400] for i in range(0, len(rows), 400)], chunksize=1)
     recs, notes = [], []
     for r, n in outs:
         recs.extend(r)
@@ -309,6 +374,7 @@ def check(run, tier):
     run.extra["unconstructible"] = [{"cls": c, "why": w, "versions": sorted(set(v))} for (c, t, w), v in sorted(uncon.items())][:200]
     run.extra["classes"] = len(classes)
     chunk = 6000
+    drift_classes = {}
     for i in range(0, len(recs), chunk):
         part = recs[i:i + chunk]
         res = validate(part, "%d" % (i // chunk))
@@ -326,10 +392,15 @@ def check(run, tier):
         for d in res.tag("D"):
             r = by[d["id"]]
             for what in d["drift"]:
-                run.note_drift({"kind": "wire", "cls": r["cls"], "ver": r["ver"], "what": what[:200]})
+                # the innermost difference identifies the deviation; the classes that embed it are listed in the evidence
+                m = re.search(r'("children of"|"tag"|"value of"|"type at").*$', what)
+                core = (m.group(0) if m else what)[:200]
+                drift_classes.setdefault("%d: %s" % (r["ver"], core), set()).add(r["cls"])
+                run.note_drift({"kind": "wire", "ver": r["ver"], "what": core})
     for r in recs:
         lab = r["id"].split("/")[2].split(":")[0].split("~")[0]
         run.case((r["cls"], r["ver"], lab, r["kind"]))
+    run.extra["wire_drift_classes"] = {k: sorted(v) for k, v in sorted(drift_classes.items())}
     run.traces += len(recs)
     run.sample({"classes": len(classes), "executions": len(recs),
                 "accepted_mutations": sum(1 for r in recs if r["kind"] == "accept")})
